@@ -442,7 +442,7 @@ def partitions(tier, seed):
                 P.append(_stack_part(asgi, (7, 7), independent, True, 2, 2, 900))
                 P.append(_stack_part(asgi, (7, 7, 7), independent, True, 1, 1, 1500))
                 P.append(_stack_part(asgi, (5, 7, 3), independent, True, 0, 0, 1500))
-    ls = [(3, 3), (1, 2), (3, 1, 2)] if q else [(a, b, c) for a in range(4) for b in range(4) for c in range(4)]
+    ls = [(3, 3), (1, 2), (3, 1, 2)] if q else [(a, b, c) for a in range(1, 4) for b in range(1, 4) for c in range(1, 4)]  # 0 = no method: falcon rejects such a component
     for masks in ls:
         src = '''
 def h(fail_start: int, fail_stop: int, do_shutdown: bool) -> int:
